@@ -32,8 +32,8 @@ For SS the reference is the stored subscription row right before the request; th
 not applied to the user's own want when that want has no J (a {sub}/{set sub} without a mode un-self-bans
 by design: there the empty text means "default", not "no change").
 Finding-specific names (KNOWN_FINDINGS.txt, findings/C05.md):
-  setdesc-bad-auth-text-accepted-with-anon   #2: parseTopicAccess overwrites auth's error by anon's result
-  acc-bad-auth-text-masks-default            #3: replyCreateUser ignores the error and sanitises the default
+  setdesc-bad-auth-text-accepted-with-anon   #3: parseTopicAccess overwrites auth's error by anon's result
+  acc-bad-auth-text-masks-default            #4: replyCreateUser ignores the error and sanitises the default
 """
 import json
 import os
@@ -575,7 +575,12 @@ def run_layer3(ctx):
     for law, c, detail in fails:
         by_law.setdefault(law, []).append((c, detail))
     for law, lst in by_law.items():
-        lst.sort(key=lambda x: (len(x[0]), x[0]))
+        # the most telling request first: one field supplied with a plain valid text, the other one empty/absent
+        def telling(x):
+            w = x[0].split()[:4] if x[0].startswith("AC ") else x[0].split()
+            cl = [tok_class(t) for t in (w[-2:] if w[0] != "SS" else w[-1:])]
+            return (0 if "text" in cl and "junk" not in cl else 1, len(x[0]), x[0])
+        lst.sort(key=telling)
         c, detail = lst[0]
         rep = {"case": c, "impl": impl.get(c), "law": law, "detail": detail, "layer": 3, "cases_failing": len(lst)}
         kc = control_of(c)
